@@ -9,14 +9,20 @@ package main
 // (as gRPC would deliver them: absent sub-messages are nil, repeated fields hold no nil).
 
 import (
+	"context"
 	"encoding/json"
 	"fmt"
+	"net"
 	"sync"
 	"testing"
 
 	"github.com/containernetworking/cni/pkg/skel"
+	"github.com/vishvananda/netlink"
 
 	"github.com/AliyunContainerService/terway/pkg/link"
+	"github.com/AliyunContainerService/terway/plugin/datapath"
+	"github.com/AliyunContainerService/terway/plugin/driver/types"
+	"github.com/AliyunContainerService/terway/plugin/driver/utils"
 	"github.com/AliyunContainerService/terway/rpc"
 	g "github.com/AliyunContainerService/terway/zz_verif/c15gen"
 	"github.com/AliyunContainerService/terway/zz_verif/vt"
@@ -59,11 +65,32 @@ type vfC15CNIScenario struct {
 	NetConfs []vfC15NetConf `json:"net_confs"`
 }
 
-func vfC15ValidStdin(t *rapid.T) []byte { return g.MustJSON(g.CNIConf(t)) }
+// vfC15ValidStdin: a well-formed CNI configuration; one in three is an IPVlan
+// configuration with 1..3 host_stack_cidrs entries (dotted IPv4, IPv6, IPv4-mapped IPv6
+// notation), the input of the host-stack redirect path.
+func vfC15ValidStdin(t *rapid.T) []byte {
+	m := g.CNIConf(t)
+	if rapid.IntRange(0, 2).Draw(t, "hoststack") == 0 {
+		m["eniip_virtual_type"] = rapid.SampledFrom([]string{"IPVlan", "ipvlan", "IPVLAN"}).Draw(t, "ipvlan")
+		hs := []any{}
+		for i, n := 0, rapid.IntRange(1, 3).Draw(t, "nhs"); i < n; i++ {
+			switch rapid.IntRange(0, 4).Draw(t, "hsform") {
+			case 0, 1:
+				hs = append(hs, g.CIDRv4(t))
+			case 2, 3:
+				hs = append(hs, g.MappedCIDR(t))
+			default:
+				hs = append(hs, g.CIDRv6(t))
+			}
+		}
+		m["host_stack_cidrs"] = hs
+	}
+	return g.MustJSON(m)
+}
 
 func vfC15GenCNI(t *rapid.T) vfC15CNIScenario {
 	s := vfC15CNIScenario{Kind: g.Kind(t)}
-	s.IPType = int32(rapid.IntRange(1, 2).Draw(t, "iptype"))
+	s.IPType = int32(rapid.SampledFrom([]int{1, 2, 2}).Draw(t, "iptype")) // ENIMultiIP (the IPVlan datapath) twice as likely
 	s.Stdin = g.Bytes(vfC15ValidStdin(t))
 	s.Args = g.Bytes(rapid.SampledFrom([]string{
 		"K8S_POD_NAME=p;K8S_POD_NAMESPACE=ns;K8S_POD_INFRA_CONTAINER_ID=abc;IgnoreUnknown=1",
@@ -141,8 +168,15 @@ func vfC15GenCNI(t *rapid.T) vfC15CNIScenario {
 			*texts[k] = g.MutateText(t, string(*texts[k]))
 		}
 	case g.KindRaw:
-		if rapid.IntRange(0, 2).Draw(t, "rawstdin") == 0 {
+		switch rapid.IntRange(0, 3).Draw(t, "rawstdin") {
+		case 0:
 			s.Stdin = g.Raw(t, g.JSONAlphabet, g.CNIConfHostile)
+		case 1: // raw strings in the host_stack_cidrs list of an otherwise well-formed IPVlan configuration
+			hs := []any{}
+			for i, n := 0, rapid.IntRange(1, 3).Draw(t, "nrawhs"); i < n; i++ {
+				hs = append(hs, string(g.Raw(t, g.IPAlphabet, g.HostStackHostile)))
+			}
+			s.Stdin = g.Bytes(g.MustJSON(map[string]any{"type": "terway", "eniip_virtual_type": "IPVlan", "host_stack_cidrs": hs}))
 		}
 		for _, p := range texts {
 			if rapid.IntRange(0, 2).Draw(t, "rawtext") == 0 {
@@ -241,6 +275,7 @@ func vfC15RunCNI(c g.Sink, s vfC15CNIScenario) {
 				c.Fatalf("parseSetupConf returned nil, nil")
 			}
 			okSetup++
+			vfC15HostStack(c, conf, setup)
 			// what doCmdAdd / cmdAdd do with it before the datapath is programmed
 			setup.HostVETHName, _ = link.VethNameForPod(string(k8sConfig.K8S_POD_NAME), string(k8sConfig.K8S_POD_NAMESPACE), string(nc.IfName), defaultVethPrefix)
 			_ = fmt.Sprintf("%v", setup)
@@ -281,3 +316,87 @@ func vfC15RunCNI(c g.Sink, s vfC15CNIScenario) {
 }
 
 func TestVerifC15CNIPlugin(t *testing.T) { vt.Run(t, vfC15GenCNI, g.NoPanic(g.Adapt(vfC15RunCNI))) }
+
+// ---------------------------------------------------------------------------------
+// IPVlan datapath, host-stack redirect: what IPvlanDriver.Setup does with the parsed
+// `host_stack_cidrs` (setupInitNamespace: redirectCIDRs = HostStackCIDRs + IPv4 service
+// CIDR -> setupFilters -> dstIPRule per CIDR -> tc u32 filters on the parent device).
+// The ipvlan slave cannot be created in this sandbox, so the harness enters at
+// setupFilters, on the loopback device, and only when the process runs in a network
+// namespace of its own (nothing but `lo`); otherwise only dstIPRule is called.
+
+var (
+	vfC15PrivOnce sync.Once
+	vfC15PrivLo   netlink.Link
+)
+
+func vfC15PrivateLo() netlink.Link {
+	vfC15PrivOnce.Do(func() {
+		links, err := netlink.LinkList()
+		if err != nil || len(links) != 1 || links[0].Attrs().Name != "lo" {
+			return
+		}
+		vfC15PrivLo = links[0]
+	})
+	return vfC15PrivLo
+}
+
+func vfC15HostStack(c g.Sink, conf *types.CNIConf, setup *types.SetupConfig) {
+	if setup.DP != types.IPVlan || !conf.IPVlan() {
+		return
+	}
+	if setup.ServiceCIDR == nil || setup.ServiceCIDR.IPv4 == nil {
+		// the daemon always reports an IPv4 service CIDR (k8s.setSvcCIDR); a reply without
+		// one is outside what the plugin can receive
+		c.Label("hoststack:no-v4-service-cidr(not judged)")
+		return
+	}
+	c.Label("hoststack:reached")
+	redirect := append(append([]*net.IPNet{}, setup.HostStackCIDRs...), setup.ServiceCIDR.IPv4)
+	for _, cidr := range setup.HostStackCIDRs {
+		switch {
+		case len(cidr.IP) == net.IPv6len && cidr.IP.To4() != nil:
+			c.Label("hoststack:v4-mapped")
+		case cidr.IP.To4() == nil:
+			c.Label("hoststack:v6")
+		default:
+			c.Label("hoststack:v4")
+		}
+	}
+	rejected := false
+	for _, cidr := range redirect {
+		if err := datapath.VerifC15DstIPRule(1, cidr, 2); err != nil {
+			rejected = true
+		}
+	}
+	if rejected {
+		c.Label("hoststack:rule-rejected")
+	}
+	lo := vfC15PrivateLo()
+	if lo == nil {
+		c.Label("hoststack:no-private-netns(rule only)")
+		return
+	}
+	ctx := context.Background()
+	if err := utils.EnsureClsActQdsic(ctx, lo); err != nil {
+		c.Label("hoststack:no-clsact")
+	}
+	if err := datapath.VerifC15SetupFilters(ctx, lo, redirect, lo.Attrs().Index); err != nil {
+		c.Label("hoststack:filters-error")
+		if !rejected {
+			c.Label("hoststack:kernel-refused-filter")
+		}
+	} else {
+		if rejected {
+			c.Fatalf("setupFilters succeeded although a redirect CIDR was rejected by dstIPRule")
+		}
+		c.Label("hoststack:filters-programmed")
+	}
+	// leave no filter behind for the next case
+	parent := uint32(netlink.HANDLE_CLSACT&0xffff0000 | netlink.HANDLE_MIN_EGRESS&0x0000ffff)
+	if fs, err := netlink.FilterList(lo, parent); err == nil {
+		for _, f := range fs {
+			_ = netlink.FilterDel(f)
+		}
+	}
+}
